@@ -225,6 +225,60 @@ func runC06(e *Env) error {
 			}
 		}
 	}
+	// built-in filters the policy does not list, on literals and variables, and the tags that are implemented through a
+	// filter: refused inside the sandbox in every spelling, fine outside
+	for _, f := range []string{"upper", "lower", "trim", "spaceless", "length", "capitalize", "raw", "escape", "default('d')", "join(',')", "reverse", "first"} {
+		name := strings.SplitN(f, "(", 2)[0]
+		for _, pos := range []string{"{{ 'Text'|F }}", "{{ x|F }}", "{{ nul|default('Text'|F) }}", "{% apply F %}body{% endapply %}", "{{ ('a' ~ 'B')|F }}", "{% set y = 'Lit'|F %}{{ y }}", "{% if 'Lit'|F %}y{% endif %}", "{% for c in 'ab'|F %}{{ c }}{% endfor %}"} {
+			src := strings.ReplaceAll(pos, "F", f)
+			if strings.HasPrefix(pos, "{% apply") {
+				src = strings.ReplaceAll(pos, "F", name)
+			}
+			res := guarded(func() (string, error) {
+				eng := twig.New()
+				eng.RegisterString("main", "{{ 'Out'|"+f+" }}|{% include 'box' sandboxed %}")
+				eng.RegisterString("box", src)
+				pol := &twig.DefaultSecurityPolicy{AllowedFilters: map[string]bool{}, AllowedFunctions: map[string]bool{}, AllowedTags: map[string]bool{"if": true, "for": true, "set": true, "apply": true, "spaceless": true}}
+				for _, ok := range []string{"upper", "lower", "trim", "spaceless", "length", "capitalize", "raw", "escape", "default", "join", "reverse", "first"} {
+					if ok != name && !(name == "default" && ok == "default") {
+						pol.AllowedFilters[ok] = true
+					}
+				}
+				if name != "default" {
+					pol.AllowedFilters["default"] = true
+				}
+				eng.EnableSandbox(pol)
+				return eng.Render("main", ctx)
+			})
+			r.Seen("core-filter:"+src, true)
+			r.Hit("unlisted-core-filter")
+			if res.Class != "security" {
+				if r.Violate(Violation{Key: "sandbox-escape", What: fmt.Sprintf("the policy does not list the built-in filter %q, yet the sandboxed template %q renders %q (class %q %v)", name, src, res.Out, res.Class, res.Err),
+					Broken: "theorem C06_confinement (implementation-only oracle: built-in filters are subject to the policy like user filters, on literals too)",
+					Replay: map[string]any{"kind": "core-filter", "box": src, "filter": name, "class": res.Class, "out": res.Out, "err": fmt.Sprint(res.Err)}}) {
+					return nil
+				}
+			}
+		}
+	}
+	for _, tagSrc := range []string{"{% spaceless %}<a> <b></b> </a>{% endspaceless %}", "{% if true %}{% spaceless %}<i> </i>{% endspaceless %}{% endif %}", "{% include 'inner' %}"} {
+		res := guarded(func() (string, error) {
+			eng := twig.New()
+			eng.RegisterString("main", "{% include 'box' sandboxed %}")
+			eng.RegisterString("box", tagSrc)
+			eng.RegisterString("inner", "{% spaceless %}<p> x </p>{% endspaceless %}")
+			eng.EnableSandbox(&twig.DefaultSecurityPolicy{AllowedFilters: map[string]bool{"upper": true}, AllowedFunctions: map[string]bool{}, AllowedTags: map[string]bool{"spaceless": true, "if": true, "include": true}})
+			return eng.Render("main", ctx)
+		})
+		r.Seen("filter-backed-tag:"+tagSrc, true)
+		if res.Class != "security" {
+			if r.Violate(Violation{Key: "sandbox-escape", What: fmt.Sprintf("the policy does not list the spaceless filter, yet the sandboxed template %q renders %q (class %q %v)", tagSrc, res.Out, res.Class, res.Err),
+				Broken: "theorem C06_confinement (implementation-only oracle: a tag implemented through a filter applies the policy to that filter)",
+				Replay: map[string]any{"kind": "core-filter", "box": tagSrc, "class": res.Class, "out": res.Out}}) {
+				return nil
+			}
+		}
+	}
 	// the policy in force is the one installed last: renders under policy P1 must not leave anything behind
 	// that lets a render under a stricter P2 invoke what P2 forbids (one engine, several renders)
 	for _, pos := range []string{"{{ x|bad|upper }}", "{{ x|bad }}", "{% for c in xs|bad %}{{ c }}{% endfor %}", "{{ badfn() }}", "{{ okfn(badfn()) }}", "{% apply bad %}b{% endapply %}"} {
